@@ -22,3 +22,49 @@ package module
 //@     invariant rangeindex >= 0 ==> key == arguments[0]
 //@     invariant rangeindex >= 1 ==> value == arguments[1]
 //@     decreases 2 - rangeindex
+
+// assumption stated by the property: reflection's Type.Implements(T) agrees with the type assertion to T
+//@ iface Type.Implements
+//@   nopanic
+
+// List[V]: no data argument, a Go array, a sequence, or CDCN source (one data argument)
+//@ func List
+//@   props C20
+//@   nilok
+//@   requires len(arguments) <= 1
+//@   ensures[C20] result != nil && fresh(result)
+//@   ensures[C20] len(arguments) == 0 ==> view(result) == empty()
+//@   ensures[C20] len(arguments) == 1 && typeis(arguments[0], sliceof(V)) ==> view(result) == view(unboxSlice(arguments[0]))
+//@   ensures[C20] len(arguments) == 1 && typeis(arguments[0], "string") && len(unboxStr(arguments[0])) > 0 ==> view(result) == view(parsedval(unboxStr(arguments[0])))
+//@   loop 1:
+//@     invariant -1 <= rangeindex && rangeindex <= 0 && rangeindex < len(arguments) && notation != nil
+//@     invariant rangeindex == -1 ==> len(values) == 0 && arr(values) == nil && sequence == nil && source == ""
+//@     invariant rangeindex == 0 && typeis(arguments[0], sliceof(V)) ==> values == unboxSlice(arguments[0]) && sequence == nil && source == ""
+//@     invariant rangeindex == 0 && typeis(arguments[0], "string") ==> source == unboxStr(arguments[0]) && len(values) == 0 && sequence == nil
+//@     decreases 1 - rangeindex
+//@   loop 2:
+//@     invariant list != nil && fresh(list) && snap(iterator) == view(parsedval(source)) && 0 <= pos(iterator) && pos(iterator) <= len(snap(iterator))
+//@     invariant view(list) == snap(iterator)[0:pos(iterator)]
+//@     decreases len(snap(iterator)) - pos(iterator)
+
+// Stack[V]: no data argument, a capacity, a Go array, or CDCN source (one data argument)
+//@ func Stack
+//@   props C20
+//@   nilok
+//@   requires len(arguments) <= 1
+//@   ensures[C20] result != nil && fresh(result)
+//@   ensures[C20] len(arguments) == 0 ==> view(result) == empty()
+//@   ensures[C20] len(arguments) == 1 && typeis(arguments[0], "uint") && unboxInt(arguments[0]) > 0 ==> view(result) == empty() && capacity(result) == unboxInt(arguments[0])
+//@   ensures[C20] len(arguments) == 1 && typeis(arguments[0], sliceof(V)) ==> view(result) == view(unboxSlice(arguments[0]))
+//@   ensures[C20] len(arguments) == 1 && typeis(arguments[0], "string") && len(unboxStr(arguments[0])) > 0 ==> view(result) == view(parsedval(unboxStr(arguments[0])))
+//@   loop 1:
+//@     invariant -1 <= rangeindex && rangeindex <= 0 && rangeindex < len(arguments) && notation != nil
+//@     invariant rangeindex == -1 ==> capacity == 0 && len(values) == 0 && arr(values) == nil && sequence == nil && source == ""
+//@     invariant rangeindex == 0 && typeis(arguments[0], "uint") ==> capacity == unboxInt(arguments[0]) && len(values) == 0 && sequence == nil && source == ""
+//@     invariant rangeindex == 0 && typeis(arguments[0], sliceof(V)) ==> capacity == 0 && values == unboxSlice(arguments[0]) && sequence == nil && source == ""
+//@     invariant rangeindex == 0 && typeis(arguments[0], "string") ==> capacity == 0 && source == unboxStr(arguments[0]) && len(values) == 0 && sequence == nil
+//@     decreases 1 - rangeindex
+//@   loop 2:
+//@     invariant stack != nil && fresh(stack) && snap(iterator) == view(parsedval(source)) && 0 <= pos(iterator) && pos(iterator) <= len(snap(iterator))
+//@     invariant view(stack) == snap(iterator)[0:pos(iterator)]
+//@     decreases len(snap(iterator)) - pos(iterator)
